@@ -119,11 +119,45 @@ def cases(draw, tier):
            # would legitimately build Y twice (statement-silent shape, DESIGN §5)
            "roots": sorted(set([top] + [targets[draw(st.integers(0, nt - 1))] for _ in range(draw(st.integers(0, 2)))]),
                            key=lambda t_: int(t_.rsplit("t", 1)[1]))}
+    # the live output in the default (pretty) format; a second command that rebuilds some of the targets with other
+    # lines (the per-target log is replaced at each build start), replayed with and without --unchanged
+    cfg["pretty"] = int(not has_record_line and draw(st.integers(0, 99)) < 30)
+    cfg["roots2"] = None
+    if not has_record_line and draw(st.integers(0, 99)) < 50:
+        pick = [t for t in targets if draw(st.integers(0, 99)) < 40] or [top]
+        cfg["roots2"] = sorted(set(pick), key=lambda t_: int(t_.rsplit("t", 1)[1]))
+        cfg["jobs2"] = draw(st.sampled_from([1, 2, 3]))
     return {"project": proj, "cfg": cfg, "ops": [], "expect": expect, "d16_excluded": d16_moved,
             "record_like_line": has_record_line}
 
 
-def parse_log(text):
+PRETTY = re.compile(r"^redo +(\S+?)(?: \((resumed|done|exit -?\d+)\))?$")
+
+
+def second_generation(case):
+    """The stderr pieces of every script with ` g2` appended to every line (cuts stay where they were).
+    -> ({piece file: text}, {target: [payload]})"""
+    ef = case["project"]["errfiles"]
+    new = {}
+    exp2 = {}
+    tag = " g2"
+    for dof, spec in case["project"]["dofiles"].items():
+        names = [stt[1] for stt in spec["body"] if stt[0] == "err"]
+        full = "".join(ef[n] for n in names)
+        off = 0
+        prev_new = 0
+        full2 = full.replace("\n", tag + "\n")
+        for n in names:
+            off += len(ef[n])
+            cut = off + len(tag) * full.count("\n", 0, off)
+            new[n] = full2[prev_new:cut]
+            prev_new = cut
+        assert prev_new == len(full2), (prev_new, len(full2))
+        exp2[dof[:-3]] = [pl + tag for pl in case["expect"][dof[:-3]]]
+    return new, exp2
+
+
+def parse_log(text, pretty=False):
     """-> ({target: [(seq, payload)]}, {target: rv}, problems)"""
     # A plain line belongs to the section opened by the most recent `do X` or re-opened by `resumed Y`:
     # redo-log prints `resumed Y` before the first plain line of Y that follows any nested section, and a
@@ -137,6 +171,19 @@ def parse_log(text):
         if raw == "":
             continue
         mm = META.match(raw)
+        if pretty:
+            mm = None
+            pm = PRETTY.match(raw)
+            if pm:
+                name, what = pm.groups()
+                if what is None:
+                    cur = name
+                    dos.append(name)
+                elif what == "resumed":
+                    if name not in dos:
+                        problems.append("resumed %r which was never opened" % name)
+                    cur = name
+                continue
         if mm and re.match(r"L (?:sub/)?t\d+ \d+( |$)", mm.group(4)):
             raw = mm.group(4)      # a script's own line that has the form of a record: judged like any other line
             mm = None
@@ -191,12 +238,28 @@ def judge(per, done, dos, problems, expect, executed, label, no_done=()):
                 out.append("%s: payload differs at seq %s" % (t, bad[:10]))
         if t not in dos:
             out.append("%s: no 'do' record" % t)
-        if t not in no_done and done.get(t) != 0:
+        if no_done != "all" and t not in no_done and done.get(t) != 0:
             out.append("%s: done status %r, expected 0" % (t, done.get(t)))
     for t in per:
         if t not in executed:
             out.append("%s: lines shown although its script did not run" % t)
     return ["%s: %s" % (label, o) for o in out]
+
+
+def closure(case, roots):
+    """Targets reachable from roots through the redo-ifchange statements of the scripts."""
+    seen = set()
+    todo = list(roots)
+    while todo:
+        t = todo.pop()
+        if t in seen:
+            continue
+        seen.add(t)
+        spec = case["project"]["dofiles"].get(t + ".do")
+        for stt in (spec or {}).get("body", []):
+            if stt[0] == "dep":
+                todo.extend(stt[2])      # (root-relative in the DSL)
+    return seen
 
 
 def partial_across_dep(case, executed):
@@ -244,8 +307,9 @@ def run_case(case, tier):
     try:
         disk.materialize(case["project"])
         cfg = case["cfg"]
-        argv = ["redo", "-j%d" % cfg["jobs"], "--no-pretty"] + cfg["roots"]
-        res = runner.run_cmd(disk, argv, cwd="", env_extra={})
+        pretty = bool(cfg.get("pretty"))
+        argv = ["redo", "-j%d" % cfg["jobs"], "--pretty" if pretty else "--no-pretty"] + cfg["roots"]
+        res = runner.run_cmd(disk, argv, cwd="", env_extra={"REDO_PRETTY": "1"} if pretty else {})
         out.commands += 1
         ex, calls, args, exits = hist.parse_trace(disk.take_trace())
         out.scripts += len(ex)
@@ -269,7 +333,9 @@ def run_case(case, tier):
                              "sig": {"symptom": "exit %d" % res.rc}, "step": 0}
             return out
         expect = case["expect"]
-        probs = judge(*parse_log(text), expect, sorted(set(ex)), "live")
+        probs = judge(*parse_log(text, pretty), expect, sorted(set(ex)), "live", no_done="all" if pretty else ())
+        if pretty:
+            out.events["c18:live-output-in-pretty-format"] += 1
         # replay, per root
         rtext = ""
         seen_exec = set(ex)
@@ -303,9 +369,64 @@ def run_case(case, tier):
         pad = partial_across_dep(case, set(ex))
         if pad:
             out.events["c18:partial-line-pending-across-redo-ifchange"] += 1
+        rtext2 = ""
+        if not probs and cfg.get("roots2") and not pad and not case.get("record_like_line"):
+            # ---- second command: some targets are built again and write other lines ----
+            new, expect2 = second_generation(case)
+            for name, txt in new.items():
+                with open(os.path.join(disk.ctl, name), "wb") as f:
+                    f.write(txt.encode("utf-8"))
+            argv2 = ["redo", "-j%d" % cfg.get("jobs2", 1), "--no-pretty"] + cfg["roots2"]
+            res2 = runner.run_cmd(disk, argv2, cwd="", env_extra={})
+            out.commands += 1
+            ex2, _, _, _ = hist.parse_trace(disk.take_trace())
+            out.scripts += len(ex2)
+            if res2.timed_out:
+                raise runner.Inconclusive("timeout")
+            text2 = res2.err.decode("utf-8", "replace")
+            ctx["cmd2"] = {"argv": argv2, "rc": res2.rc, "err": text2[-3000:]}
+            ctx["executed2"] = ex2
+            if res2.rc == 101 or "panicked at" in text2:
+                out.violation = {"property": "C09", "clause": "panic", "detail": ctx,
+                                 "sig": {"symptom": hist.panic_sig(text2)}, "step": 1}
+                return out
+            if res2.rc != 0:
+                out.violation = {"property": "C09", "clause": "spurious-failure", "detail": ctx,
+                                 "sig": {"symptom": "exit %d" % res2.rc}, "step": 1}
+                return out
+            if not partial_across_dep(case, set(ex2)):
+                out.events["c18:second-command-rebuilds-with-other-lines"] += 1
+                out.events["c18:lines-checked"] += sum(len(expect2[t]) for t in set(ex2))
+                probs += judge(*parse_log(text2), expect2, sorted(set(ex2)), "live2")
+                q2 = runner.run_cmd(disk, ["redo-log", "-r", "--no-pretty"] + cfg["roots2"], cwd="", env_extra={})
+                out.commands += 1
+                rtext2 = q2.out.decode("utf-8", "replace")
+                if q2.rc != 0:
+                    probs.append("replay2: redo-log exited %d: %s" % (q2.rc, q2.err.decode("utf-8", "replace")[-300:]))
+                else:
+                    probs += judge(*parse_log(rtext2), expect2, sorted(set(ex2)), "replay2", no_done=cfg["roots2"])
+                # --unchanged: every target the second command needed is shown once, with the lines of its LAST build
+                known = set(ex) | set(ex2)
+                clos = closure(case, cfg["roots2"])
+                if clos <= known:
+                    q3 = runner.run_cmd(disk, ["redo-log", "-r", "-u", "--no-pretty"] + cfg["roots2"], cwd="",
+                                        env_extra={})
+                    out.commands += 1
+                    utext = q3.out.decode("utf-8", "replace")
+                    if q3.rc != 0:
+                        probs.append("replay-u: redo-log exited %d: %s" % (
+                            q3.rc, q3.err.decode("utf-8", "replace")[-300:]))
+                    else:
+                        mixed = {t: (expect2[t] if t in ex2 else expect[t]) for t in clos}
+                        up = judge(*parse_log(utext), mixed, sorted(clos), "replay-u", no_done="all")
+                        if up:
+                            ctx["replay_u"] = utext[-2000:]
+                        probs += up
+                        if clos - set(ex2):
+                            out.events["c18:unchanged-targets-shown-by-replay-u"] += 1
         if probs:
             out.violation = {"property": "C18", "clause": "log-lines", "step": 0,
-                             "detail": dict(ctx, problems=probs[:20], replay=rtext[-2000:]),
+                             "detail": dict(ctx, problems=probs[:20], replay=rtext[-2000:], replay2=rtext2[-2000:]),
                              "sig": {"symptom": "log-lines", "partial_across_dep": pad,
                                      "record_like_line": bool(case.get("record_like_line"))}}
         return out
